@@ -12,7 +12,7 @@ type Cond = sched.Cond
 type Locker = sched.Locker
 type WaitGroup = sched.WaitGroup
 type Once = sched.Once
-type Pool = sync.Pool
+type Pool = sched.Pool
 type Map = sync.Map
 
 func NewCond(l Locker) *Cond { return sched.NewCond(l) }
